@@ -9,6 +9,8 @@ GJID = "4915112345-1500000000@g.us"
 TAGS = {"message": "message", "receipt": "receipt", "ack": "ack", "presence": "presence", "chatstate": "chatstate", "call": "call",
         "ib": "ib", "iq": "iq", "notification": "notification", "success": "success", "failure": "failure",
         "streamFeatures": "stream:features", "streamError": "stream:error", "other": "frobnicate"}
+# what a contact's status notification carries: a text, nothing at all (the status was cleared), non-ASCII text, bytes that are not UTF-8
+STATUS_BODIES = [b"my status", None, u"caf\u00e9 \u4e16\u754c".encode("utf-8"), b"\xff\xfe\x00raw", b""]
 NTYPES = {"picture": "picture", "status": "status", "contacts": "contacts", "subject": "subject", "wgp2": "w:gp2", "encrypt": "encrypt",
           "other": "psa"}
 XMLNS = {"ping": "urn:xmpp:ping", "wp": "w:p", "push": "urn:xmpp:whatsapp:push", "w": "w", "account": "urn:xmpp:whatsapp:account",
@@ -248,13 +250,13 @@ def _build_stanza(d, seq=1):
         kids = []
         if d.get("cSet"):
             if nt == "status":
-                kids.append(N("set", {}, None, b"my status"))
+                kids.append(N("set", {}, None, STATUS_BODIES[d.get("body", 0) % len(STATUS_BODIES)]))
             else:
                 kids.append(N("set", {"jid": JID, "id": "1400000000"}))
         if d.get("cDelete"):
             kids.append(N("delete", {"jid": JID}))
         if nt == "status" and not d.get("cSet"):
-            kids.append(N("set", {}, None, b"my status"))
+            kids.append(N("set", {}, None, STATUS_BODIES[d.get("body", 0) % len(STATUS_BODIES)]))
         if d.get("cRemove"):
             kids.append(N("remove", {"jid": JID, "subject": "s"}, [N("participant", {"jid": JID})]))
         if d.get("cAdd"):
